@@ -64,6 +64,13 @@ func foldTo(rv reflect.Value, vis structform.Visitor) Outcome {
 		if !usesRegT(rv.Type(), 0, map[reflect.Type]bool{}) && !withSharedOpts(rv.Type()) {
 			return gotype.Fold(rv.Interface(), vis)
 		}
+		if len(rv.Type().String())%3 != 0 {
+			// the one-shot form with options — after ANOTHER one-shot call without
+			// options has folded the same value (calls are independent: what one
+			// compiled for its configuration must not reach the next)
+			_ = gotype.Fold(rv.Interface(), discardVisitor{})
+			return gotype.Fold(rv.Interface(), vis, foldOpts()...)
+		}
 		it, err := gotype.NewIterator(vis, foldOpts()...)
 		if err != nil {
 			return err
